@@ -176,7 +176,7 @@ class State(object):
     if not assume_range:
       if (tid, n) in self.norange:
         return None
-      if not self.entails(z3.And(term >= 0, term < 256 ** n), "byte-range"):
+      if not self.entails(z3.And(term >= 0, term < 256 ** n), "byte-range", timeout_ms=500):
         self.norange.add((tid, n))
         return None
     bs = [fresh_int("d") for _ in range(n)]
@@ -317,13 +317,13 @@ class State(object):
       self._model_n = len(self.pc)
     return r != "unsat"
 
-  def entails(self, cond, what=None):
+  def entails(self, cond, what=None, timeout_ms=None):
     cond = concretize(cond) if is_sym(cond) else cond
     if cond is True:
       return True
     if cond is False:
       return False
-    r, _ = self.check([z3.Not(cond)], what=what)
+    r, _ = self.check([z3.Not(cond)], what=what, timeout_ms=timeout_ms)
     return r == "unsat"
 
   def entails_le(self, a, b):
